@@ -157,12 +157,8 @@ Definition struct_loop (f : nat) (o : ropts) (cfg : value) :=
           y <- (if tag_squash ctag then
                   match base_ty ft with
                   | TStruct _ | TMap _ =>
-                    match ft, x with
-                    | TPtr _, GPtrNil => OutOfModel
-                    | _, _ =>
-                      y <- reify_merge_value f (o', th, []) ft x cfg ;;
-                      _ <- run_validators (r_vo o) vts (view y) ;; Ok y
-                    end
+                    y <- reify_merge_value f (o', th, []) ft x cfg ;;
+                    _ <- run_validators (r_vo o) vts (view y) ;; Ok y
                   | TSlice _ | TArray _ _ => reify_merge_value f (o', th, vts) ft x cfg
                   | _ => Err ETypeMismatch ""
                   end
@@ -304,12 +300,12 @@ Lemma get_value_missing_names_path o rp name idx root :
 Proof. intro H. unfold get_value. rewrite H. reflexivity. Qed.
 
 Lemma get_path_last_field_missing rp f pp cur r s :
-  get_field f pp cur = Err r s -> get_path_go rp [f] pp cur = Err EMissing (path_of rp (field_str f)).
+  get_field f pp cur = Err r s -> get_path_go rp [f] pp cur = Err EMissing (path_of pp (field_str f)).
 Proof. intro H. simpl. rewrite H. reflexivity. Qed.
 
 Lemma get_path_inner_missing rp f f2 rest pp cur :
   get_field f pp cur = Ok None ->
-  get_path_go rp (f :: f2 :: rest) pp cur = Err EMissing (path_of rp (field_str f)).
+  get_path_go rp (f :: f2 :: rest) pp cur = Err EMissing (path_of pp (field_str f)).
 Proof. intro H. simpl. rewrite H. reflexivity. Qed.
 
 (* conversion failures keep the reason of the underlying conversion *)
